@@ -457,10 +457,147 @@ def check_3d(ctx, n, nmax, dis, hist, samples):
     return nev
 
 
+# --------------------- call histories that RE-USE the same grid objects
+NAMES6 = ['Conductivity', 'LgConductivity', 'LnConductivity', 'Resistivity', 'LgResistivity',
+          'LnResistivity']
+
+
+def gen_pool(rng, nmax=3):
+    """Node triples of a small pool of grids: G0; G1 = G0 shifted; G2 = same cell counts, other
+    widths; G3 = G0's directions permuted (same n_cells, other shape); G4 = other cell counts;
+    T0, T1 = targets (T1 has T0's cell counts)."""
+    def nodes(n, x0=None):
+        return rand_nodes(rng, n, x0)
+    cnt = [rng.randint(1, nmax) for _ in range(3)]
+    if cnt[0] * cnt[1] * cnt[2] == 1:
+        cnt[rng.randint(0, 2)] = 2
+    g0 = [nodes(n) for n in cnt]
+    d = [rng.randint(1, 12) / 8 * rng.choice([1, -1]) for _ in range(3)]
+    g1 = [[x + dd for x in a] for a, dd in zip(g0, d)]
+    g2 = [nodes(n, a[0]) for n, a in zip(cnt, g0)]
+    perm = rng.choice([(1, 0, 2), (2, 1, 0), (0, 2, 1), (1, 2, 0)])
+    g3 = [list(g0[k]) for k in perm]
+    g4 = [nodes(rng.randint(1, nmax), a[0] + rng.randint(-8, 8) / 8) for a in g0]
+    tc = [rng.randint(1, nmax) for _ in range(3)]
+    t0 = [nodes(n, a[0] + rng.randint(-8, 8) / 8) for n, a in zip(tc, g0)]
+    t1 = [nodes(n, a[0] + rng.randint(-8, 8) / 8) for n, a in zip(tc, g0)]
+    return {'G0': g0, 'G1': g1, 'G2': g2, 'G3': g3, 'G4': g4, 'T0': t0, 'T1': t1}
+
+
+def gen_call_history(rng, ncalls, nmax=3):
+    pool = gen_pool(rng, nmax)
+    names = list(pool)
+    calls = [('adj', 'G0', 'T0'), ('adj', 'G1', 'T0'), ('adj', 'G3', 'T0'), ('fwd', 'G2', 'T0')]
+    while len(calls) < ncalls:
+        op = rng.choice(['adj', 'adj', 'fwd', 'fwd_log', 'i2g'])
+        a, b = rng.sample(names, 2)
+        calls.append((op, a, b))
+    rng.shuffle(calls[3:])
+    out = []
+    for k, (op, a, b) in enumerate(calls):
+        shp_a = tuple(len(x) - 1 for x in pool[a])
+        shp_b = tuple(len(x) - 1 for x in pool[b])
+        out.append(dict(op=op, src=a, tgt=b, v=values8(rng, shp_a),
+                        u=values8(rng, shp_b) * rng.choice([1, -1]), map=NAMES6[rng.randint(0, 5)]))
+    return pool, out
+
+
+def mesh_of(nodes):
+    import emg3d
+    return emg3d.TensorMesh([np.diff(x) for x in nodes], [x[0] for x in nodes])
+
+
+def run_call(call, g, ng):
+    """One call on the given grid OBJECTS; returns the flat answer."""
+    import emg3d
+    from emg3d import maps
+    op = call['op']
+    with np.errstate(all='ignore'), warnings.catch_warnings():
+        warnings.simplefilter('ignore')
+        if op == 'fwd':
+            return np.asarray(maps.interpolate(g, call['v'], ng, method='volume')).ravel()
+        if op == 'fwd_log':
+            return np.asarray(maps.interpolate(g, call['v'], ng, method='volume', log=True)).ravel()
+        if op == 'adj':
+            oval = np.zeros((3, *g.shape_cells))
+            maps._interp_volume_average_adj(oval, g, np.stack([call['u'], 2 * call['u'], -call['u']]), ng)
+            return oval.ravel()
+        mp = getattr(maps, 'Map' + call['map'])()
+        model = emg3d.Model(g, property_x=mp.forward(call['v'].copy()), mapping=call['map'])
+        m2 = model.interpolate_to_grid(ng)
+        return np.asarray(mp.backward(np.asarray(m2.property_x))).ravel()
+
+
+def brief_call(pool, call, k):
+    return {'call': k, 'op': call['op'], 'src': call['src'], 'tgt': call['tgt'], 'map': call['map'],
+            'src_nodes': [[float(x) for x in a] for a in pool[call['src']]],
+            'tgt_nodes': [[float(x) for x in a] for a in pool[call['tgt']]]}
+
+
+def check_call_histories(ctx, nhist, ncalls, dis, hist, samples):
+    """Sequences of calls on SHARED grid objects; every answer is compared with the Coq model
+    evaluated on the grids of that call (history independence)."""
+    rng = ctx.rng
+    hs = [gen_call_history(rng, ncalls) for _ in range(nhist)]
+    texts = []
+    for hi, (pool, calls) in enumerate(hs):
+        for k, c in enumerate(calls):
+            cc = dict(nodes=pool[c['src']], nnodes=pool[c['tgt']], v=c['v'], u=c['u'],
+                      init=np.zeros(c['u'].shape))
+            texts.append((f"c15_h_{hi}_{k}", coq_3d(cc)))
+    res = V.coq_eval_many(texts)
+    nev = 0
+    for hi, (pool, calls) in enumerate(hs):
+        objs = {nm: mesh_of(nd) for nm, nd in pool.items()}        # ONE object per grid, re-used
+        done = []
+        for k, c in enumerate(calls):
+            rc, out = res[f"c15_h_{hi}_{k}"]
+            done.append((c['op'], c['src'], c['tgt']))
+            if rc != 0:
+                dis.append({'what': 'interp_va model does not evaluate (history)', 'log': out[-1200:]})
+                continue
+            ans = V.eval_answers(out)
+            g, ng = objs[c['src']], objs[c['tgt']]
+            shape_o = tuple(ng.shape_cells)
+            vol = ng.cell_volumes.reshape(shape_o, order='F')
+            if c['op'] == 'fwd':
+                model = np.array([float(x) for x in V.parse_pairs(ans[0])])
+            elif c['op'] == 'adj':
+                m_adj = np.array([float(x) for x in V.parse_pairs(ans[2])])
+                model = np.concatenate([m_adj, 2 * m_adj, -m_adj])
+            else:                                   # log mode / interpolate_to_grid (conductivities)
+                T = parse_T(ans[3])
+                model = (10 ** model_apply_py(T, vol, np.log10(c['v']), shape_o)).ravel()
+            if c['op'] == 'i2g' and g == ng:
+                continue                            # emg3d calls the grids equal: returns the model itself
+            try:
+                impl = run_call(c, g, ng)
+            except Exception as e:
+                dis.append({'what': 'call in a history raised', 'case': brief_call(pool, c, k),
+                            'impl': repr(e)})
+                continue
+            nev += 1
+            hist['hist:' + c['op']] = hist.get('hist:' + c['op'], 0) + 1
+            kbad = closev(impl, model, 1e-8 if c['op'] == 'i2g' else 1e-9)
+            if kbad is not None:
+                dis.append({'what': f"{c['op']} in a history that re-uses grid objects differs from the model "
+                                    f"on the grids of that call",
+                            'case': brief_call(pool, c, k), 'history_so_far': done,
+                            'flat_index': kbad,
+                            'impl': repr(float(impl[kbad])) if kbad < impl.size else 'shape',
+                            'model': repr(float(model[kbad])) if kbad < model.size else 'shape'})
+                break
+        if hi < 1:
+            samples.append({'history': [(c['op'], c['src'], c['tgt']) for c in calls],
+                            'pool': {nm: [[float(x) for x in a] for a in nd] for nm, nd in pool.items()}})
+    return nev
+
+
 def correspondence(ctx):
     dis, hist, samples = [], {}, []
     n1, nt = check_weights(ctx, 3000 if ctx.thorough else 500, dis, hist, samples)
     n3 = check_3d(ctx, 120 if ctx.thorough else 24, 4 if ctx.thorough else 3, dis, hist, samples)
+    n3 += check_call_histories(ctx, 12 if ctx.thorough else 3, 12 if ctx.thorough else 9, dis, hist, samples)
     return {
         'evaluations': n1 + n3,
         'distinct_nontrivial': nt,
@@ -474,7 +611,11 @@ def correspondence(ctx):
                 "distinct non-trivial = distinct (relation tags, sizes) other than equal grids. 3-D: per "
                 "direction a pair of 1..3 (thorough 4) cells, values 8-bit mantissa * 2^(-13..13); "
                 "interp_volume_average with zero/non-zero initial output, interpolate linear/log, "
-                "Model.interpolate_to_grid (map cycling, mu_r every other case), adjoint; 1e-9 relative",
+                "Model.interpolate_to_grid (map cycling, mu_r every other case), adjoint; 1e-9 relative. Call "
+                "histories: a pool of grid OBJECTS (G0, G0 shifted, same counts/other widths, permuted shape, "
+                "other counts, two targets) re-used as source and target through 9 (thorough 12) calls "
+                "(adjoint, interpolate linear/log, Model.interpolate_to_grid), starting with adjoints of three "
+                "equal-n_cells sources onto the same target object; each answer vs the model on that call's grids",
         'samples': samples[:6],
         'traces_validated_against_impl': n1 + n3,
         'histogram': hist,
@@ -605,11 +746,57 @@ def search_case(seed, log):
     return None
 
 
+def search_history_case(seed):
+    """History independence on the implementation: a sequence of calls on shared grid objects
+    must give the same answers as the same calls on fresh copies of the grids; and the adjoint
+    must pair with the forward map inside the history."""
+    import random
+    from emg3d import maps
+    rng = random.Random(seed)
+    pool, calls = gen_call_history(rng, 10, nmax=4)
+    objs = {nm: mesh_of(nd) for nm, nd in pool.items()}
+    for k, c in enumerate(calls):
+        g, ng = objs[c['src']], objs[c['tgt']]
+        if c['op'] == 'i2g' and g == ng:
+            continue
+        try:
+            shared = run_call(c, g, ng)
+            fresh = run_call(c, mesh_of(pool[c['src']]), mesh_of(pool[c['tgt']]))
+        except Exception as e:
+            return {'signature': 'call in a history of volume-averaging calls raised', 'kind': 'history',
+                    'seed': seed, 'call': brief_call(pool, c, k), 'observed': repr(e)}
+        hist_so_far = [(x['op'], x['src'], x['tgt']) for x in calls[:k + 1]]
+        if shared.shape != fresh.shape or not np.all(
+                np.abs(shared - fresh) <= 1e-10 * np.maximum(np.abs(fresh), np.max(np.abs(fresh)) * 1e-6)):
+            kb = int(np.argmax(np.abs(shared - fresh))) if shared.shape == fresh.shape else -1
+            return {'signature': f"{c['op']}: answer depends on earlier calls that used the same grid object",
+                    'kind': 'history', 'seed': seed, 'history': hist_so_far, 'call': brief_call(pool, c, k),
+                    'flat_index': kb, 'observed': float(shared[kb]) if kb >= 0 else 'shape',
+                    'required': float(fresh[kb]) if kb >= 0 else 'shape'}
+        if c['op'] == 'adj':
+            out = maps.interpolate(g, c['v'], ng, method='volume')
+            lhs = float(np.sum(c['u'] * out))
+            rhs = float(np.sum(shared[:c['v'].size].reshape(c['v'].shape) * c['v']))
+            if abs(lhs - rhs) > 1e-9 * max(float(np.sum(np.abs(c['u']) * out)), 1e-300):
+                return {'signature': 'gradient adjoint is not the transpose of the volume averaging '
+                                     '(inside a history re-using grid objects)', 'kind': 'history',
+                        'seed': seed, 'history': hist_so_far, 'call': brief_call(pool, c, k),
+                        'observed': rhs, 'required': lhs}
+    return None
+
+
 def search(ctx, broken):
     rng = ctx.rng
     n = 300 if ctx.thorough else 80
     hits = []
+    for k in range(40 if ctx.thorough else 12):
+        h = search_history_case(rng.randint(0, 2 ** 40))
+        if h:
+            hits.append(h)
+            break
     for k in range(n):
+        if hits:
+            break
         h = search_case(rng.randint(0, 2 ** 40), log=(k % 2 == 1))
         if h:
             hits.append(h)
@@ -624,4 +811,6 @@ def replay(ctx, payload):
     fi = payload.get('failing_input') or {}
     if 'seed' not in fi:
         return False
+    if fi.get('kind') == 'history':
+        return search_history_case(int(fi['seed'])) is None
     return search_case(int(fi['seed']), bool(fi.get('log'))) is None
